@@ -206,8 +206,12 @@ func (c *C09) begin(in *hub.Instance, g *c09Ghost, st *engine.Step) {
 	in.RestoreClosed(boundary)
 	in.Staking.Order = nil
 	preNonce := map[string]uint64{}
+	preSets := map[string]string{} // chain/nonce -> the stored set, as published
 	for _, ch := range AllExtChains {
 		preNonce[ch] = in.Hub.GetLatestSignerSetTxNonce(in.Ctx(), mhubtypes.ChainID(ch))
+		for _, ss := range in.Hub.GetSignerSetTxs(in.Ctx(), mhubtypes.ChainID(ch)) {
+			preSets[fmt.Sprintf("%s/%d", ch, ss.Nonce)] = ss.String()
+		}
 	}
 	if p := in.BeginBlock(5); BlockFailure(st, p) {
 		return
@@ -248,6 +252,12 @@ func (c *C09) begin(in *hub.Instance, g *c09Ghost, st *engine.Step) {
 				return new(big.Rat)
 			}
 			return new(big.Rat).SetFrac(new(big.Int).Mul(big.NewInt(stake), max32), tot)
+		}
+		// a published set stays what it is: validators have signed its checkpoint, relayers hold the signatures
+		for _, ss := range in.Hub.GetSignerSetTxs(ctx, chain) {
+			if was, ok := preSets[fmt.Sprintf("%s/%d", ch, ss.Nonce)]; ok && was != ss.String() {
+				st.Violate("C09", "signer_set_nonce_not_increasing", "incrementLatestSignerSetTxNonce", "chain %s: a new set was published under nonce %d, which an earlier set already carries (that set has been replaced)", ch, ss.Nonce)
+			}
 		}
 		latest := in.Hub.GetLatestSignerSetTx(ctx, chain)
 		postNonce := in.Hub.GetLatestSignerSetTxNonce(ctx, chain)
